@@ -230,6 +230,7 @@ func cmdCheck(args []string) {
 		writeEvidenceFail(*verif, *prop, *tier, seed, time.Since(start).Seconds(), err.Error())
 		os.Exit(2)
 	}
+	e.loadBaseLocals(*verif)
 	rep := e.RunCheck(*prop, timeout, thorough, known, ledger)
 	outDir := filepath.Join(*verif, "replay", "out")
 	os.MkdirAll(outDir, 0o755)
@@ -481,6 +482,30 @@ func cmdLedger(args []string) {
 	b, _ := json.MarshalIndent(ledger, "", " ")
 	os.MkdirAll(filepath.Dir(path), 0o755)
 	os.WriteFile(path, b, 0o644)
+	// the local variables of every function under contract, so that a later rename can be followed
+	locals := map[string][]LocalVar{}
+	for key, fc := range e.db.Funcs {
+		if fc.Assume {
+			continue
+		}
+		if fn := e.fnByKey[key]; fn != nil {
+			locals[key] = localVars(fn)
+		}
+	}
+	lb, _ := json.MarshalIndent(locals, "", " ")
+	os.WriteFile(filepath.Join(filepath.Dir(path), "locals.json"), lb, 0o644)
+}
+
+// loadBaseLocals reads baseline/locals.json (absent: no rename following).
+func (e *Engine) loadBaseLocals(verif string) {
+	b, err := os.ReadFile(filepath.Join(verif, "baseline", "locals.json"))
+	if err != nil {
+		return
+	}
+	m := map[string][]LocalVar{}
+	if json.Unmarshal(b, &m) == nil {
+		e.baseLocals = m
+	}
 }
 
 // ------------------------------------------------------------ selftest (must-fail corpus)
@@ -577,6 +602,7 @@ func runSelftest(verif, repo, prop string, timeoutS int) *SelftestResult {
 			st.Detected++
 			continue
 		}
+		e.loadBaseLocals(verif)
 		rep := e.RunCheck(prop, timeoutS, false, known, ledger)
 		if n := len(rep.Failed) + len(rep.Errors) + len(rep.Missing) + len(rep.Vacuous); n > 0 {
 			st.Detected++
